@@ -20,7 +20,8 @@ from concurrent.futures import ThreadPoolExecutor
 
 VERIF = os.path.dirname(os.path.dirname(os.path.abspath(__file__)))
 REPO = os.environ.get("VERIF_REPO", "/repo")
-BUILD = os.path.join(VERIF, ".build")
+BUILD = os.environ.get("VERIF_BUILD", os.path.join(VERIF, ".build"))      # scratch runs against seeded changes use their own
+OUT = os.environ.get("VERIF_OUT", VERIF)                                        # where evidence/ and replays/ are written
 TARGET = os.path.join(BUILD, "target")
 BIN = os.path.join(TARGET, "debug", "fselect")
 SHIM = os.path.join(BUILD, "libverifshim.so")
